@@ -499,7 +499,18 @@ def _process_internal_events_without_default_matchers(
     if event.name == InternalEvents.START_FLOW:
         # Start new flow state instance if flow exists
         flow_id = event.arguments["flow_id"]
-        if flow_id in state.flow_configs and flow_id != "main":
+        source_flow_state = state.flow_states.get(
+            event.arguments.get("source_flow_instance_uid", "")
+        )
+        if (
+            source_flow_state is not None
+            and source_flow_state.status == FlowStatus.STOPPED
+            and source_flow_state.flow_id != flow_id
+        ):
+            # The flow that wanted to start this flow was aborted in the meantime (e.g. by its parent),
+            # starting the flow now would leave it running without a running parent
+            log.info("Start of flow '%s' skipped since parent flow was aborted", flow_id)
+        elif flow_id in state.flow_configs and flow_id != "main":
             started_instance = None
             if (
                 event.arguments.get("activated", None)
